@@ -1932,7 +1932,7 @@ void QXmppJinglePayloadType::toXml(QXmlStreamWriter *writer) const
     writer->writeStartElement(QSL65("payload-type"));
     writeOptionalXmlAttribute(writer, u"id", QString::number(d->id));
     writeOptionalXmlAttribute(writer, u"name", d->name);
-    if (d->channels > 1) {
+    if (d->channels != 1) {
         writeOptionalXmlAttribute(writer, u"channels", QString::number(d->channels));
     }
     if (d->clockrate > 0) {
